@@ -272,6 +272,27 @@ def rule_c(ctx):
                 r.ok(key)
             else:
                 r.violate(key, "the io::Result of %s in main is not propagated with `?`" % c.name(), c.loc())
+    # a buffering wrapper defers the real write to flush()/drop, and Drop discards the io::Error: if main wraps its sink in one,
+    # an explicit flush whose result propagates must lie on every path from the write to the normal return
+    wrappers = [c for c in m.calls() if any(x in (c.callee or "") for x in ("BufWriter", "LineWriter")) and an.tail2(c.callee).split("::")[-1] in ("new", "with_capacity")]
+    key = "main|buffered-sink-flushed"
+    if not wrappers:
+        r.ok(key, why="the sink is written directly (no BufWriter/LineWriter), write_all reports the OS error itself")
+    else:
+        writes = [c for c in m.calls() if an.tail2(c.callee) in ("Write::write_all", "Write::write", "Write::write_fmt")]
+        flushes = []
+        for c in m.calls():
+            if an.tail2(c.callee) in ("Write::flush", "BufWriter::into_inner"):
+                prop = [c2 for c2 in m.calls() if an.tail2(c2.callee) == "Try::branch" and an.trace_operand(m, c2.args[0], through_calls=False).root == ("call", c.name(), c.bb)]
+                if prop:
+                    flushes.append(c.bb)
+        errs = an.err_exit_blocks(m)
+        bad = [w for w in writes if not flushes or an.reach_avoiding(m, w.bb, set(flushes) | errs, set(m.exits()) - errs) is not None]
+        if bad:
+            r.violate(key, "main writes the CSS through a buffering wrapper (%s) and can return Ok without a propagated flush(): the real write happens in Drop, which "
+                      "discards the io::Error, so a failed write exits 0 with nothing on stderr" % wrappers[0].callee, wrappers[0].loc())
+        else:
+            r.ok(key, why="buffered sink, flush()? on every path after the write")
     return r
 
 
